@@ -14,7 +14,9 @@
 
 #include "galois/Galois.h"
 
+#include <pthread.h>
 #include <sstream>
+#include <thread>
 
 using namespace c14;
 
@@ -45,13 +47,58 @@ const Comp COMPS[] = {
     {"TwoLevelIterator", run_TwoLevelIterator, 4},
     {"TwoLevelIteratorA", run_TwoLevelIteratorA, 4},
 };
+
+// An operation that never returns (e.g. a corrupted tree walked forever) would otherwise stall the whole run.
+// Verdict by *thread CPU time* (not wall-clock: a descheduled thread accrues none): every operation here works
+// on <= a few hundred elements and takes microseconds; one that burns CPU_LIMIT_S seconds of the case thread's
+// own CPU time without completing is reported as non-returning, and the process exits with the HANG code so
+// that the driver restarts after the case.
+constexpr double CPU_LIMIT_S = 3.0;
+std::atomic<bool> g_stopWatch{false};
+std::atomic<const char*> g_curComponent{""};
+std::atomic<Case*> g_curCase{nullptr}; // its history is read only while the case thread is stuck
+
+void cpuWatchdog(verif::Harness* H, pthread_t caseThread) {
+  clockid_t cid;
+  if (pthread_getcpuclockid(caseThread, &cid) != 0)
+    return;
+  auto cpuNow = [&]() {
+    timespec ts;
+    clock_gettime(cid, &ts);
+    return ts.tv_sec + ts.tv_nsec * 1e-9;
+  };
+  uint64_t lastSeq = g_opSeq.load(std::memory_order_relaxed);
+  double cpuAtSeq  = cpuNow();
+  while (!g_stopWatch.load(std::memory_order_relaxed)) {
+    verif::sleep_us(100000);
+    uint64_t s = g_opSeq.load(std::memory_order_relaxed);
+    double cpu = cpuNow();
+    if (s != lastSeq || H->curCase < 0) {
+      lastSeq  = s;
+      cpuAtSeq = cpu;
+      continue;
+    }
+    if (cpu - cpuAtSeq >= CPU_LIMIT_S) {
+      char op[sizeof g_curOp];
+      memcpy(op, g_curOp, sizeof op);
+      op[sizeof op - 1] = 0;
+      Case* cc = g_curCase.load();
+      H->violation(std::string("C14:") + g_curComponent.load() + ":does-not-return-after-" + op,
+                   J().kv("kind", "operation (or the traversal after it) did not return")
+                       .kv("thread_cpu_seconds_without_completing", cpu - cpuAtSeq).kv("operation", op)
+                       .kv("config", cc ? cc->cfg : "").kv("history", cc ? cc->history() : "").str());
+      H->line(J().kv("ev", "hang_exit").kv("case", H->curCase).str());
+      _exit(3);
+    }
+  }
+}
 } // namespace
 
 int main(int argc, char** argv) {
   verif::Harness H("C14", argc, argv);
-  H.hangMonitorEnabled = true;
   galois::SharedMemSys G;
   galois::setActiveThreads(1); // the property is about single-threaded use
+  std::thread watchdog(cpuWatchdog, &H, pthread_self());
 
   // --param comps=a,b,c restricts the components of this process
   std::vector<const Comp*> sched;
@@ -85,8 +132,12 @@ int main(int argc, char** argv) {
     const Comp& cp = *sched[(size_t)k % sched.size()];
     Case c(H, k, H.caseSeed(k));
     g_reg.reset();
-    H.hangKey = std::string("C14:") + cp.name + ":hang";
+    H.hangKey      = std::string("C14:") + cp.name + ":hang";
+    g_curComponent.store(cp.name);
+    g_curCase.store(&c);
+    noteProgress("case-start");
     cp.fn(c);
+    g_curCase.store(nullptr);
     if (!c.begun) {
       fprintf(stderr, "runner %s did not begin its case\n", cp.name);
       return 2;
@@ -106,11 +157,13 @@ int main(int argc, char** argv) {
     obs.kv("ops", c.ops).kv("traversals_compared", c.checks).kv("elements_compared", c.visited)
         .kv("results_compared", c.resultChecks).kv("multi_block_states", c.multiBlock)
         .kv("constructs", g_reg.constructs).kv("destroys", g_reg.destroys).kv("element_moves", g_reg.moves)
-        .kv("max_size", c.maxSize).kv((std::string("cases_") + cp.name).c_str(), 1)
+        .kv((std::string("cases_") + cp.name).c_str(), 1)
         .kv("cases_ended_by_violation", (int)c.bad);
     for (auto& e : c.extra)
       obs.kv(e.first.c_str(), e.second);
     H.end(k, sig, nontrivial, obs.str());
   }
+  g_stopWatch.store(true);
+  watchdog.join();
   return 0;
 }
